@@ -76,6 +76,10 @@ _mc("C08", "explicit-state BFS over operation histories of real MultiUserChannel
     "From each initialiser, every history up to depth 3 (thorough 4) over 20-27 events (randomize / init_from_channel_matrix with swapped unequal antenna layouts, set_pathloss incl. None and external-interference path loss, noise_var, set_post_filter, cache-populating reads of every view, both corrupt_data entry points) is replayed on a fresh real object; in every state every view (H, big_H, get_Hkl, get_Hk, big_H_no_ext_int, H_no_ext_int, get_Hk_without_ext_int) and both transmissions (output = W^H(big_H x + last_noise), last_noise = scripted draw x sqrt(noise_var), None iff noise_var None) are compared with a matrix reference model; wrong views are classified (stale path loss / stale layout expansion / stale channel).",
     "Trusted: the reference model (raw matrix x sqrt(block path loss)); K=2, square post filters, fixed number of external sources per history.")
 
+_e1("C19", "Shapes (Hexagon, Rectangle 1:1 and 4:1, Circle, Cell, Cell3Sec, CellSquare, CellWrap of each) x positions x radii (incl. 1e-6, 1e6) x 11 rotations: containment on a lattice plus edge probes against a crossing-number test on the shape's OWN vertices, border points for 123 angles x 5 ratios, setter histories on one object (pos / radius / rotation, fresh-object differential), clusters of every size / type / rotation (congruence, centroid, neighbour distance, shared edges, no overlap, wrap-around lattice) in every order of construction (class-level state), distance matrices against a double loop, random user placement by deviation-bounded exploration (<=2..4 non-default draws) of the scripted numpy.random answers over an 8-letter alphabet, point processes per draw vector.",
+    "Trusted: crossing-number test, independent vertex model. Points within 1e-9 r of an edge are excluded as ties and counted. Random placement through CellWrap is not explored (stated).")
+CHECKS["C19"] = (CHECKS["C19"][0], "exhaustive product enumeration + deviation-bounded exploration of scripted random draws (E2) + setter histories on real shape/cell objects", ) + CHECKS["C19"][2:]
+
 NOT_YET = {}
 
 
